@@ -187,7 +187,7 @@ def generate(seed, tier):
     n_long = 60 if thorough else 14
     for i in range(n_long):
         n = rng.randint(1, 5)
-        T = rng.choice([65, 100, 257, 500, 1000, 2000]) if i % 2 else rng.randint(13, 64)
+        T = rng.choice([65, 100, 257, 500, 1000, 2000] + ([5000] if thorough else [])) if i % 2 else rng.randint(13, 64)
         kind = rng.choice(["pos", "sparse", "any"])
         P, F, E = tables(rng, n, T, kind)
         ops = stage(n, P, F, E)
@@ -371,6 +371,65 @@ def generate(seed, tier):
                     else:
                         ops.append("val %s" % o)
         cases.append(["case copy%d" % i] + ops)
+    # ---- xtr: the double-range regimes inside the quantifier (emissions spanning 1e-200..1, zero transition entries):
+    # identity / triangular / sparse matrices with alternating extreme emissions (a state nobody feeds underflows in
+    # the rescaled classes), dense tables with tiny scale factors (derivatives divide by their squares / cubes),
+    # zero transition / equilibrium entries (log-sum derivatives), derivatives with respect to transition parameters
+    n_xtr = 60 if thorough else 16
+    for i in range(n_xtr):
+        n = rng.choice([2, 2, 3])
+        T = rng.randint(3, 8)
+        shape = rng.choice(["ident", "tri", "dense", "zeropi"])
+        if shape == "ident":
+            P = [1.0 if a == b else 0.0 for a in range(n) for b in range(n)]
+            F = [1.0 / n] * n
+        elif shape == "tri":
+            P = []
+            for a in range(n):
+                r = [0.0 if b < a else 1.0 for b in range(n)]
+                sm = sum(r); P += [x / sm for x in r]
+            F = [1.0 / n] * n
+        elif shape == "zeropi":
+            P = []
+            for a in range(n):
+                r = [0.0 if b < a else 1.0 for b in range(n)]
+                sm = sum(r); P += [x / sm for x in r]
+            F = [0.0] * (n - 1) + [1.0]
+        else:
+            P = []
+            for a in range(n):
+                r = [rng.random() + 0.05 for _ in range(n)]
+                sm = sum(r); P += [x / sm for x in r]
+            F = [1.0 / n] * n
+        E = []
+        tiny = 10.0 ** (-rng.uniform(150, 200))
+        if shape == "dense":
+            for t in range(T):
+                mag = tiny if rng.random() < 0.4 else 1.0
+                E += [mag * (0.2 + rng.random()) for _ in range(n)]
+        else:
+            cut = rng.randint(1, T - 1)
+            for t in range(T):
+                fav = 0 if t >= cut else n - 1          # the favoured state changes once
+                E += [1.0 if j == fav else tiny for j in range(n)] if rng.random() < 0.85 else [0.5] * n
+        ops = stage(n, P, F, E)
+        ops += ["build r resc 1", "build l low 1 %d" % rng.randint(1, T + 1), "build g log 1", "ll r", "ll l", "ll g", "agree r l g"]
+        for _ in range(rng.randint(2, 6)):
+            u = rng.random()
+            var = "e%d_%d" % (rng.randrange(T), rng.randrange(n))
+            if u < 0.3:
+                ops += [rng.choice(["post r", "post g", "sls r", "sls g", "post1 r %d" % rng.randrange(T), "sl g %d" % rng.randrange(T)])]
+            elif u < 0.6:
+                dd = rng.choice(["d1", "d2"])
+                ops += ["%s r %s" % (dd, var), "%s g %s" % (dd, var)]
+            elif u < 0.75:
+                ops += ["d1 %s %s" % (rng.choice(["r", "g"]), rng.choice(["p0_0", "p0_%d" % (n - 1), "f0", "f%d" % (n - 1)]))]
+            elif u < 0.88:
+                bs = " ".join(map(str, rand_breaks(rng, T)))
+                ops += ["brk r " + bs, "brk l " + bs, "brk g " + bs, "agree r l g"]
+            else:
+                ops += ["dsite r %d" % rng.randrange(T), "dsite g %d" % rng.randrange(T)]
+        cases.append(["case xtr%d %s n=%d T=%d" % (i, shape, n, T)] + ops)
     # ---- bad
     n_bad = 80 if thorough else 20
     for i in range(n_bad):
@@ -515,7 +574,7 @@ def generate(seed, tier):
     n_tm = 240 if thorough else 60
     for i in range(n_tm):
         kind = "auto" if i % 2 == 0 else "full"
-        n = rng.choice([1, 2, 2, 3, 3, 4, 5]) if kind == "auto" else rng.choice([1, 2, 2, 3, 3, 4])
+        n = rng.choice([1, 2, 2, 3, 3, 4, 5])
         ops = ["tm a %s %d" % (kind, n), "tm c %s %d" % (kind, rng.randint(1, 4))]
 
         def query(o):
